@@ -27,7 +27,12 @@ RULE = ("every arrangement is executed on the real backend()/get_user_command()/
         ">= 2 lines}; one mid-cycle event {a new user connects in cycle c and sends a line in the next cycle, a live user "
         "hangs up (EVENT_CLOSE) in cycle c, the peer of a live user whose output is still pending (send() answered "
         "EWOULDBLOCK since it connected) vanishes in cycle c without any event: the flush inside the command scan gets "
-        "EPIPE} for c in 1..4 (quick tier: 1..2). 4 arrival cycles + 1 for the late "
+        "EPIPE} for c in 1..4 (quick tier: 1..2); long backlog: one line-mode network user pastes 300 numbered lines in one "
+        "write in cycle 1 (1800 bytes: beyond the buffer-shift threshold of get_user_data() and beyond MAX_TEXT; read piecewise "
+        "over the following cycles, readiness level-triggered, ~300 cycles until drained) while every other user has 0 or 1 "
+        "complete line: {trailing partial line, unbounded reads} and {no partial, <= 97 bytes per read}, offered for the first "
+        "live network user (thorough: also 120 lines, all four partial/read-size combinations, every eligible user, the "
+        "other users with any of their scripts). 4 arrival cycles + 1 for the late "
         "user's line + quiet cycles until every queue is empty (<= 6). Per cycle: <= 1 buffered command per user; every "
         "connected user with a complete command buffered when the command phase starts is served in that cycle; per-user "
         "order and content; the three command() calls run inside the turn of `m`; the wait is entered with timeout 0 while "
@@ -42,13 +47,18 @@ ASSUME = ["a command counts as buffered from the cycle whose process_io() receiv
 def run(ck):
     exe = build(ck)["h_c12"]
     if ck.tier == "quick":
-        ck.explore(exe, ["--midcycles=2", "--console-scripts=3"], "b1-mid2-con3", budget=1, deadline_s=215)
+        # two passes over the same base arrangements, the small deviation classes first so that a deadline hit under
+        # machine load cuts into the bulk, not into them (the union is what --dev=63 explores; the base is run twice)
+        q = ["--midcycles=2", "--console-scripts=3"]
+        ck.explore(exe, q + ["--dev=52"], "b1-flags-vanish-backlog", budget=1, deadline_s=95)
+        ck.explore(exe, q + ["--dev=11"], "b1-cmode-mq-connect-hangup", budget=1, deadline_s=115)
     else:
-        ck.explore(exe, ["--full-flags=1"], "b2-fullflags", budget=2, deadline_s=2000)
+        ck.explore(exe, ["--full-flags=1", "--full-backlog=1"], "b2-full", budget=2, deadline_s=2000)
     cov = vlib.mc_coverage(ck.parts, RULE, extra={
         "arrangements_completed": sum(p.get("counters", {}).get("arrangements_completed", 0) for p in ck.parts),
         "buffered_commands_served": sum(p.get("counters", {}).get("buffered_commands_served", 0) for p in ck.parts),
-        "cycles_evaluated": sum(p.get("counters", {}).get("cycles_evaluated", 0) for p in ck.parts)})
+        "cycles_evaluated": sum(p.get("counters", {}).get("cycles_evaluated", 0) for p in ck.parts),
+        "backlog_runs_in_shift_region": sum(p.get("counters", {}).get("backlog_runs_in_shift_region", 0) for p in ck.parts)})
     ck.finish(cov, assumptions=ASSUME)
 
 def selftest(ck):
